@@ -30,38 +30,7 @@ def run(ctx):
     ctx.floor("wal_functions", len(wal), 30)
     is_seek = lambda c: is_method(c, "io::Seek", "seek") or is_method(c, "io::Seek", "rewind")
 
-    # T1
-    n = 0
-    for f in wal:
-        res, _ = order_after(f, lambda c: c.name.endswith("fs::File::set_len"), is_seek, [])
-        for c, ok, esc in res:
-            n += 1
-            ctx.ob("T1.CURSOR-AFTER-RESIZE", f.id, ok, "set_len is followed by a seek on every success path" if ok else
-                   "File::set_len without repositioning the cursor: the next append lands at the old offset and leaves a hole of "
-                   "never-written bytes", c.loc(), describe_path(f, esc[0]) if esc else None)
-    ctx.floor("T1.set_len_sites", n, 1)
-
-    # T2
-    n = 0
-    for f in wal:
-        builds = any(s[0] == "=" and s[2][0] == "agg" and s[2][1] == "adt" and s[2][2] == "storage::wal::Wal"
-                     for b in f.blocks for s in b["s"])
-        opens = [c for c in f.calls if c.name == "storage::wal::WalSegment::open"]
-        if not builds or not opens:
-            continue
-        n += 1
-        res, _ = order_after(f, lambda c: c.name == "storage::wal::WalSegment::open", is_seek,
-                             [call_named(["path::Path::exists", "PathBuf::exists"], True, desc="the segment file exists (reopen)")])
-        bad = [(c, esc) for c, ok, esc in res if not ok]
-        ctx.ob("T2.APPEND-TARGET-SEEK", f.id, not bad, "reopened segment is seeked before becoming the append target" if not bad else
-               "a segment from the non-truncating constructor becomes the append target with its cursor where open() left it "
-               "(byte 0): the first append overwrites valid frames", bad[0][0].loc() if bad else f.loc(),
-               describe_path(f, bad[0][1][0]) if bad else None)
-        wr = any(s[0] == "=" and s[1][1] and place_fields(s[1]) and place_fields(s[1])[-1] == "storage::wal::WalSegment::offset"
-                 for b in f.blocks for s in b["s"])
-        ctx.ob("T2.OFFSET-WRITTEN", f.id, wr, "logical offset of the reopened segment is set with the cursor" if wr else
-               "cursor moved but WalSegment.offset not updated in the same function", f.loc())
-    ctx.floor("T2.reopen_builders", n, 1)
+    append_position(ctx)
 
     # T3
     readers = ("storage::wal::WalSegment::read_frame", "storage::wal::WalSegment::read_frame_into",
@@ -223,3 +192,44 @@ def run(ctx):
     bad = [c for c in cr if c.bb in r]
     ctx.ob("T7.OPEN-NEVER-RECREATES", wo.id, bool(applied) and not bad, "Wal::open creates a segment only when none exists" if not bad and applied else
            "Wal::open can reach the truncating constructor for an existing segment", wo.loc())
+
+
+def append_position(ctx, pre=""):
+    """T1/T2: the OS file cursor and the logical append offset agree whenever a segment becomes the append target (shared with
+    C01: a frame appended elsewhere than where replay reads is an acknowledged write that does not survive)."""
+    m = ctx.m
+    wal = [f for f in m.fns.values() if f.id.startswith("storage::wal::") and f.kind != "closure"]
+    is_seek = lambda c: is_method(c, "io::Seek", "seek") or is_method(c, "io::Seek", "rewind")
+    # T1
+    n = 0
+    for f in wal:
+        res, _ = order_after(f, lambda c: c.name.endswith("fs::File::set_len"), is_seek, [])
+        for c, ok, esc in res:
+            n += 1
+            ctx.ob(pre + "T1.CURSOR-AFTER-RESIZE", f.id, ok, "set_len is followed by a seek on every success path" if ok else
+                   "File::set_len without repositioning the cursor: the next append lands at the old offset and leaves a hole of "
+                   "never-written bytes", c.loc(), describe_path(f, esc[0]) if esc else None)
+    ctx.floor(pre + "T1.set_len_sites", n, 1)
+
+    # T2
+    n = 0
+    for f in wal:
+        builds = any(s[0] == "=" and s[2][0] == "agg" and s[2][1] == "adt" and s[2][2] == "storage::wal::Wal"
+                     for b in f.blocks for s in b["s"])
+        opens = [c for c in f.calls if c.name == "storage::wal::WalSegment::open"]
+        if not builds or not opens:
+            continue
+        n += 1
+        res, _ = order_after(f, lambda c: c.name == "storage::wal::WalSegment::open", is_seek,
+                             [call_named(["path::Path::exists", "PathBuf::exists"], True, desc="the segment file exists (reopen)")])
+        bad = [(c, esc) for c, ok, esc in res if not ok]
+        ctx.ob(pre + "T2.APPEND-TARGET-SEEK", f.id, not bad, "reopened segment is seeked before becoming the append target" if not bad else
+               "a segment from the non-truncating constructor becomes the append target with its cursor where open() left it "
+               "(byte 0): the first append overwrites valid frames", bad[0][0].loc() if bad else f.loc(),
+               describe_path(f, bad[0][1][0]) if bad else None)
+        wr = any(s[0] == "=" and s[1][1] and place_fields(s[1]) and place_fields(s[1])[-1] == "storage::wal::WalSegment::offset"
+                 for b in f.blocks for s in b["s"])
+        ctx.ob(pre + "T2.OFFSET-WRITTEN", f.id, wr, "logical offset of the reopened segment is set with the cursor" if wr else
+               "cursor moved but WalSegment.offset not updated in the same function", f.loc())
+    ctx.floor(pre + "T2.reopen_builders", n, 1)
+
